@@ -744,8 +744,9 @@ def formats(P, R, xq, b):
     for s in b.calls():
         if s.ev.get('callee') in ('strncpy', 'strlcpy') and is_var(root_var(s.ev['args'][0])) and root_var(s.ev['args'][0]).get('sc') == 'local':
             locals_src.setdefault(root_var(s.ev['args'][0])['name'], []).append((s, s.ev['args'][1]))
-    want = {'CHECK %s %s %s %s :%s': ['nickname', '<user>', 'text_addr', '<host>', 'realname'],
-            'LOGIN %s': ['password'], 'LOGIN2 %s %s %s %s': ['text_addr', '<host>', '<user>', 'password']}
+    TA = core.addr_text_field(P)
+    want = {'CHECK %s %s %s %s :%s': ['nickname', '<user>', TA, '<host>', 'realname'],
+            'LOGIN %s': ['password'], 'LOGIN2 %s %s %s %s': [TA, '<host>', '<user>', 'password']}
     seen = set()
     ucont = username_content(P, b, [(s, s.ev['args'][3:]) for s in b.calls() if xq in P.callees(s, False)])
     for s in b.calls():
@@ -766,7 +767,7 @@ def formats(P, R, xq, b):
                 elif w == '<host>':
                     d = b.single_def(x['name']) if is_var(x) else None
                     v = d[1] if d else None
-                    good = bool(v) and v.get('k') == 'cond' and field_of(v['t']) == 'hostname' and field_of(v['f']) == 'text_addr' \
+                    good = bool(v) and v.get('k') == 'cond' and field_of(v['t']) == 'hostname' and field_of(v['f']) == core.addr_text_field(P) \
                         and any(is_field(y, 'hostname') for y in walk(v['c']))
                 else:
                     good = field_of(x) == w
